@@ -63,6 +63,38 @@ def hostOfChars (cs : List Char) : Host :=
 
 def hostOfString (s : String) : Host := hostOfChars s.toList
 
+/-! ## `Host` for `http::Uri` (cargo feature `uri`; connect/uri.rs, both for http 0.2 and http 1)
+
+`hostname()` is the URI's host (`""` if it has none), `port()` the explicit port if the authority has
+one, otherwise the well-known port of the scheme looked up in a table (`scheme_to_port`; the table is
+a parameter here: the driver passes the one regenerated from the source, `Src.tlsSchemePorts`). -/
+
+/-- the parts of a URI the `Host` impl looks at -/
+structure UriParts where
+  scheme : Option String
+  host : Option String
+  port : Option Nat
+deriving Repr, DecidableEq
+
+/-- `scheme_to_port` over a table of `(scheme, port)` arms: first match, `None` if not listed -/
+def schemePort (table : List (String × Nat)) : Option String → Option Nat
+  | none => none
+  | some sch => (table.find? (fun e => e.1 == sch)).map (·.2)
+
+/-- `impl Host for http::Uri` -/
+def hostOfUri (table : List (String × Nat)) (u : UriParts) : Host :=
+  { hostname := u.host.getD "",
+    port := match u.port with
+      | some p => some p
+      | none => schemePort table u.scheme }
+
+/-- IANA service-name registry (and the registered defaults of the database protocols): the reference
+the regenerated source table is compared with in `Props/C19.lean` -/
+def wellKnownPorts : List (String × Nat) :=
+  [("http", 80), ("https", 443), ("ws", 80), ("wss", 443), ("amqp", 5672), ("amqps", 5671),
+   ("mqtt", 1883), ("mqtts", 8883), ("ftp", 21), ("ftps", 990), ("redis", 6379), ("mysql", 3306),
+   ("postgres", 5432)]
+
 /-! ## IPv4 literals (`Ipv4Addr::from_str`): four decimal octets, 1–3 digits, no leading zero, ≤ 255 -/
 
 def octetOk (cs : List Char) : Bool :=
